@@ -26,9 +26,9 @@ impl<'a, F: Frame> Signal for Dyn<'a, F> {
 // ------------------------------------------------------------------- the AST
 #[derive(Clone, Copy, Debug, PartialEq, Eq, Hash)]
 pub enum Leaf {
-    Probe(u8),
-    Iter(u8),
-    Inter(u8), // number of interleaved samples
+    Probe(u16),
+    Iter(u16),
+    Inter(u16), // number of interleaved samples
     Equil,
     Gen,
     GenMut,
@@ -45,7 +45,7 @@ pub enum Un {
     OffsetPC,
     Clip,
     Inspect,
-    Delay(u8),
+    Delay(u16),
 }
 #[derive(Clone, Copy, Debug, PartialEq, Eq, Hash)]
 pub enum Bin {
@@ -147,7 +147,7 @@ fn parse_node(s: &str) -> Option<(Node, &str)> {
     let end = s.find(|c: char| c == '(' || c == ',' || c == ')').unwrap_or(s.len());
     let head = &s[..end];
     let rest = &s[end..];
-    let num = |p: &str| head.strip_prefix(p).and_then(|x| x.parse::<u8>().ok());
+    let num = |p: &str| head.strip_prefix(p).and_then(|x| x.parse::<u16>().ok());
     if !rest.starts_with('(') {
         let l = match head {
             "equil" => Leaf::Equil,
@@ -801,7 +801,7 @@ where
 
 // ------------------------------------------------------------- enumeration
 pub fn leaves(quick: bool, ch: usize) -> Vec<Leaf> {
-    let ch = ch as u8;
+    let ch = ch as u16;
     if quick {
         vec![Leaf::Probe(0), Leaf::Probe(1), Leaf::Probe(3), Leaf::Iter(2), Leaf::Inter(2 * ch + 1), Leaf::Equil, Leaf::GenMut]
     } else {
@@ -867,10 +867,33 @@ pub fn depth2(ls: &[Leaf]) -> Vec<Node> {
     v
 }
 
+/// scale probes: long sources and long delays (byte boundary included) under every adaptor
+pub fn long_programs(ch: usize) -> Vec<Node> {
+    let ch = ch as u16;
+    let mut v = depth1(&[Leaf::Probe(70), Leaf::Iter(300), Leaf::Inter(64 * ch + ch - 1), Leaf::GenMut]);
+    let l = |x: Leaf| Box::new(Node::L(x));
+    for k in [31u16, 255, 256, 257, 1000] {
+        let d = |c: Box<Node>| Node::U(Un::Delay(k), c);
+        for leaf in [Leaf::Probe(3), Leaf::Probe(70), Leaf::Iter(2), Leaf::GenMut] {
+            v.push(d(l(leaf)));
+        }
+        for u in UNARY {
+            v.push(Node::U(u, Box::new(d(l(Leaf::Probe(3))))));
+            v.push(d(Box::new(Node::U(u, l(Leaf::Probe(3))))));
+        }
+        for b in BINARY {
+            v.push(Node::B(b, Box::new(d(l(Leaf::Probe(3)))), l(Leaf::Probe(70))));
+            v.push(Node::B(b, l(Leaf::Probe(70)), Box::new(d(l(Leaf::Probe(3))))));
+            v.push(d(Box::new(Node::B(b, l(Leaf::Probe(3)), l(Leaf::Iter(2))))));
+        }
+    }
+    v
+}
+
 /// every interleaved sample count 0..=3N+1 as a bare leaf and under one adaptor
 pub fn interleaved_lengths(ch: usize) -> Vec<Node> {
     let mut v = Vec::new();
-    for ns in 0..=(3 * ch + 1) as u8 {
+    for ns in 0..=(3 * ch + 1) as u16 {
         v.push(Node::L(Leaf::Inter(ns)));
         v.push(Node::U(Un::ScaleHalf, Box::new(Node::L(Leaf::Inter(ns)))));
         v.push(Node::U(Un::Delay(1), Box::new(Node::L(Leaf::Inter(ns)))));
@@ -1012,4 +1035,36 @@ pub fn wide_dispatch(ch: usize, n: usize, r: usize) -> Bad {
         };
     }
     d!(4 16 31 32 33 64 255 256 257 300 512 1000 127 128 129 1024 4096 65535 65536 65537)
+}
+
+/// Scale probe for delay(k) with k far beyond any horizon that can be run to the end
+/// (2^16 .. usize::MAX): the first `calls` frames must be equilibrium, the source must not be
+/// pulled, and the delay must not report exhaustion while it is still emitting its silence —
+/// also over an already exhausted source and with an adaptor above / below.
+pub const HUGE_DELAYS: [usize; 9] = [1 << 16, (1 << 16) + 1, (1 << 31) + 1, 1 << 32, (1 << 32) + 3, (1 << 48) + 2, 1 << 63, usize::MAX - 1, usize::MAX];
+pub fn huge_delay_case(k: usize, src_len: usize, shape: usize) -> Bad {
+    let name = format!("delay({k}) over a probe of {src_len} frames, shape {shape}");
+    let frames: Vec<[i16; 2]> = (0..src_len).map(|n| <[i16; 2]>::coded(1, n)).collect();
+    let (mut probe, c) = Probe::new(frames);
+    let calls = 40usize;
+    let mut sig: Dyn<[i16; 2]> = match shape {
+        0 => Dyn(Box::new((&mut probe).delay(k))),
+        1 => Dyn(Box::new((&mut probe).delay(k).scale_amp(1.0))),
+        2 => Dyn(Box::new((&mut probe).offset_amp(0).delay(k))),
+        3 => Dyn(Box::new((&mut probe).delay(k).delay(1))),
+        _ => Dyn(Box::new((&mut probe).delay(k).add_amp(signal::equilibrium::<[i16; 2]>()))),
+    };
+    for j in 0..calls {
+        if sig.is_exhausted() {
+            return bad("adaptor.huge_delay", format!("{name}: is_exhausted() = true after {j} calls, while the delay still owes {} frames of silence", k - j.min(k)));
+        }
+        let f = sig.next();
+        if f != [0i16; 2] {
+            return bad("adaptor.huge_delay", format!("{name}: frame {j} = {f:?}, expected equilibrium"));
+        }
+        if c.pulls() != 0 {
+            return bad("adaptor.huge_delay", format!("{name}: the source was pulled {} times after {} calls, expected 0 while the delay emits silence", c.pulls(), j + 1));
+        }
+    }
+    None
 }
